@@ -16,7 +16,8 @@ def format_cardinality(in_val):
     (d, d) - minimally d entries, maximally d entries
 
     Only positive integers are supported. 'None' is used to denote
-    no restrictions on a maximum or minimum.
+    no restrictions on a maximum or minimum. The returned bounds are always
+    plain ints: a bool (a subclass of int) is stored as the int it equals.
 
     :param in_val: Can either be 'None', a positive integer, which will set
                    the maximum or an integer 2-tuple of the format '(min, max)'.
@@ -35,8 +36,9 @@ def format_cardinality(in_val):
         return None
 
     # Providing a single integer sets the maximum value in a tuple.
+    # A stored bound is always a plain int: 'bool' is a subclass of 'int', 'True' counts as 1.
     if isinstance(in_val, int) and in_val > 0:
-        return None, in_val
+        return None, int(in_val)
 
     # Integer 2-tuples of the format '(min, max)' are supported to set the cardinality.
     # Also support lists with a length of 2 without advertising it.
@@ -48,13 +50,13 @@ def format_cardinality(in_val):
         max_int = isinstance(v_max, int) and v_max >= 0
 
         if max_int and min_int and v_max >= v_min:
-            return v_min, v_max
+            return int(v_min), int(v_max)
 
         if max_int and not v_min:
-            return None, v_max
+            return None, int(v_max)
 
         if min_int and not v_max:
-            return v_min, None
+            return int(v_min), None
 
         # Use helpful exception message in the following case:
         if max_int and min_int and v_max < v_min:
